@@ -51,6 +51,20 @@ CLAIMED = {
         note=TRUST + "Data vectors are concrete arrays (values irrelevant to the field map). MPS/PEPS/environment containers, numpy save/load and HDF5 are NOT covered (external I/O), nor the linear-map claim for to_dict(meta=...).",
         technique='AST-to-SMT symbolic execution of the real (de)serialisation code with symbolic structure fields; z3',
     ),
+    'C18': dict(
+        category='proof',
+        text=("CONTROLLER and STRUCTURE clauses only. The real expmv is interpreted over reals with its sub-stepping while-loop cut by an "
+              "inductive invariant (establish / preserve from an arbitrary state / use): 0 <= t_now <= t_out, the trial step is positive and "
+              "never overshoots the remaining time, an accepted step advances the clock by exactly the step tried (or to the end on happy "
+              "breakdown) and counts one step, a rejected step leaves the clock alone, so the loop exits with the clock exactly at |t|; "
+              "1 <= ncv <= max(initial, ncv_max); the estimators never divide by zero; zero vector / t = 0 take no sub-step; zero vector with "
+              "normalize raises; the result is rescaled by the accumulated norm iff not normalize. The real expand_krylov_space is interpreted "
+              "on ghost vectors: basis only grows, at most ncv+1 vectors, the map is applied once per new direction, H has exactly the "
+              "Hessenberg (Arnoldi) / tridiagonal (Lanczos) key pattern, happy breakdown drops the last sub-diagonal entry."),
+        design_ref='DESIGN.md §5 C18',
+        note="Trusted: pyvc, z3 (nonlinear real arithmetic), the ghost contracts of callees (norm >= 0, expm returns reals, norm_matrix > 0), log/pow/ceil/floor abstracted by order facts. NOT decided: agreement of expmv/eigs/lin_solver with dense expm/eig/solve (floating point); termination; eigs/lin_solver bookkeeping.",
+        technique='symbolic execution over reals with an inductive loop invariant (establish/preserve/use) on the real controller; ghost-object contracts for callees',
+    ),
     'C19': dict(
         category='proof',
         text=("Contracts on the real sym_*.fuse, add_charges, zero, Leg.__post_init__, Leg.conj, _Fusion.conj: the current "
